@@ -717,7 +717,7 @@ impl<T: Eq + Hash + Clone> AutomatonBuilder<T> {
         let mut num_final_states = 0;
         let mut state_array = Vec::with_capacity(n);
         for (i, s) in self.states.iter_mut().enumerate() {
-            s.cleanup();
+            // check the transitions as given, before cleanup simplifies them
             let p = s.make_partition()?;
             if s.default_successor.is_some() && p.empty_complement() {
                 return Err(Error::EmptyComplementaryClass);
@@ -725,6 +725,8 @@ impl<T: Eq + Hash + Clone> AutomatonBuilder<T> {
             if s.default_successor.is_none() && !p.empty_complement() {
                 return Err(Error::MissingDefaultSuccessor);
             }
+            s.cleanup();
+            let p = s.make_partition()?;
             let successor = s.make_successor(&p);
             if s.is_final {
                 num_final_states += 1;
